@@ -22,6 +22,10 @@ pub(crate) struct Header<'a> {
     pub z_flags: PacketFlag,
 
     pub opt: Option<OPT<'a>>,
+
+    /// The numeric response code received from the network, used to write the same value back
+    /// when `response_code` is [`RCODE::Reserved`] (the enum does not keep the number)
+    pub(crate) received_response_code: u16,
 }
 
 impl<'a> Header<'a> {
@@ -33,6 +37,7 @@ impl<'a> Header<'a> {
             response_code: RCODE::NoError,
             z_flags: PacketFlag::empty(),
             opt: None,
+            received_response_code: 0,
         }
     }
 
@@ -44,6 +49,7 @@ impl<'a> Header<'a> {
             response_code: RCODE::NoError,
             z_flags: PacketFlag::RESPONSE,
             opt: None,
+            received_response_code: 0,
         }
     }
 
@@ -76,6 +82,7 @@ impl<'a> Header<'a> {
             response_code: (flags & masks::RESPONSE_CODE_MASK).into(),
             z_flags: PacketFlag::from_bits_truncate(flags),
             opt: None,
+            received_response_code: flags & masks::RESPONSE_CODE_MASK,
         };
         Ok(header)
     }
@@ -103,9 +110,17 @@ impl<'a> Header<'a> {
         let mut flags = self.z_flags.bits();
 
         flags |= (self.opcode as u16) << masks::OPCODE_MASK.trailing_zeros();
-        flags |= self.response_code as u16 & masks::RESPONSE_CODE_MASK;
+        flags |= self.response_code_value() & masks::RESPONSE_CODE_MASK;
 
         flags
+    }
+
+    /// The number to write for the response code: a reserved code keeps the value it was received with
+    pub(crate) fn response_code_value(&self) -> u16 {
+        match self.response_code {
+            RCODE::Reserved => self.received_response_code,
+            named => named as u16,
+        }
     }
 
     pub(crate) fn opt_rr(&self) -> Option<ResourceRecord> {
@@ -121,7 +136,8 @@ impl<'a> Header<'a> {
 
     pub(crate) fn extract_info_from_opt_rr(&mut self, opt_rr: Option<ResourceRecord<'a>>) {
         if let Some(opt) = opt_rr {
-            self.response_code = OPT::extract_rcode_from_ttl(opt.ttl, self);
+            self.received_response_code = OPT::extract_rcode_value_from_ttl(opt.ttl, self);
+            self.response_code = self.received_response_code.into();
             self.opt = match opt.rdata {
                 crate::rdata::RData::OPT(opt) => Some(opt),
                 _ => unreachable!(),
